@@ -72,7 +72,10 @@ func (k *KVStore) Import(data []byte, f func(uint64, storage.Entry) error) (err 
 	}
 
 	tb.Range(func(hkey uint64, e storage.Entry) bool {
-		return f(hkey, e) == nil
+		// The sender drops its table when the import succeeds: an entry that
+		// could not be stored must fail the import.
+		err = f(hkey, e)
+		return err == nil
 	})
 	return err
 }
